@@ -12,6 +12,10 @@ Forms == [leaf |-> SeqToSet(Registry.leaf), wrap |-> SeqToSet(Registry.wrap), mu
 PayKinds == SeqToSet(Registry.pay)
 Positions == {"top", "underWrapper", "multiCause", "inBarrier", "inSecondary"}
 NDet == {"n0", "n1", "n3"}
+\* type keys without decoder that the library may treat specially by name, and
+\* reportable strings in the style of a printed stack (well formed and not)
+Named == [leaf |-> SeqToSet(Registry.namedLeaf), wrap |-> SeqToSet(Registry.namedWrap), multi |-> {}]
+StackDet == {"s1", "s2", "s3", "s4", "s5", "s6"}
 MTypes == {"n0", "n1", "n7"}
 
 CONSTANTS NFuzz      \* number of fuzz seeds
@@ -23,6 +27,9 @@ FNext ==
   \/ /\ Len(hist) < MaxD
      /\ \/ \E f \in {"leaf", "wrap", "multi"} : \E k \in Forms[f] : \E p \in PayKinds : \E pos \in Positions :
           \E d \in NDet : \E m \in MTypes :
+               TakeF(Step("DecodeFault", 1, E, <<k>>, <<<<f>>, <<p>>, <<pos>>, <<d>>, <<m>>>>, E, 0, E))
+        \/ \E f \in {"leaf", "wrap", "multi"} : \E k \in Forms[f] \cup Named[f] : \E pos \in Positions :
+          \E d \in StackDet \cup (IF k \in Named[f] THEN NDet ELSE {}) : \E p \in {"none", "badany"} : \E m \in {"n0", "n1"} :
                TakeF(Step("DecodeFault", 1, E, <<k>>, <<<<f>>, <<p>>, <<pos>>, <<d>>, <<m>>>>, E, 0, E))
         \/ \E n \in 1..NFuzz : TakeF(Step("DecodeFuzz", 1, E, E, E, E, n, E))
 FSpec == GInit /\ [][FNext]_vars
